@@ -23,6 +23,19 @@
 //!    key}, cuts the genuine server off and completes the handshake itself (own TLS 1.2 key schedule,
 //!    Finished, AES-GCM records).  The same code holding the genuine private key is the non-vacuity
 //!    control of every such scenario (must connect and deliver its application record).
+//!  * C02 injection SEQUENCES (`Inject`): a party without keys pushes pairs / triples over {garbage
+//!    epoch-1 record of each content type, plaintext epoch-0 ApplicationData, plaintext epoch-0 alert,
+//!    epoch-0 ChangeCipherSpec} - separate datagrams or coalesced - in front of every datagram position
+//!    of a handshake that never authenticates, both roles.  Oracle unchanged: nothing reaches the
+//!    application receiver, never Connected, no key export.
+//!  * C02 expectation boundary values: proper prefixes of the correct digest (31/16/8/1 bytes, empty),
+//!    the digest plus extra bytes, and other spellings of the same digest (lower case, no separators),
+//!    handed over verbatim and through rustrtc's own SDP fingerprint parser.  Label by construction:
+//!    expected digest BYTES == SHA-256(presented certificate) <=> authentic.
+//!  * C11 racing senders: per endpoint one OS thread that calls `send()` the instant `get_state()`
+//!    shows Connected, plus k ordinary state subscribers; in a sample of the rr fault scenarios and in
+//!    a dedicated unfaulted family.  Every payload sent with Ok must come out at the (Connected) peer
+//!    before a marker sent afterwards on the same FIFO path.
 //!  * C11 `partial_refrag`: a handshake message is partially reassembled (some fragments of
 //!    occurrence n lost), and all its retransmissions arrive complete but re-fragmented at OTHER
 //!    boundaries; decided by the stall witness like every other plan.
@@ -524,11 +537,91 @@ struct Tamper {
     other_der: Vec<u8>,
     /// direction of the Finished the tamper acts on (towards the endpoint under test)
     fin_dir: Dir,
-    /// inject one plaintext epoch-0 ApplicationData record in front of the first datagram of this direction
-    inject_dir: Option<Dir>,
-    injected: bool,
+    /// records a party WITHOUT keys pushes at the endpoint under test during the handshake
+    inject: Option<Inject>,
     held_cert: Option<Vec<u8>>,
     applied: u32,
+}
+
+/// Injection SEQUENCE of a party that holds no keys (C02 "no application data is accepted" / "never
+/// Connected" for a handshake that never authenticates).  Alphabet (one record each):
+///   g20 g21 g22 g23  a record claiming the protected epoch 1 with a garbage body, content type
+///                    ChangeCipherSpec / Alert / Handshake / ApplicationData
+///   p23              plaintext epoch-0 ApplicationData carrying INJECT_PAYLOAD (+ "#<index>")
+///   p21              plaintext epoch-0 alert (warning, no_renegotiation)
+///   c20              epoch-0 ChangeCipherSpec
+/// The records go out in front of datagram number `pos` of direction `dir` (towards the endpoint under
+/// test), each in its own datagram or all coalesced in one.
+struct Inject {
+    dir: Dir,
+    pos: u32,
+    coalesced: bool,
+    seq: Vec<String>,
+    garbage_seed: u64,
+    seen: u32,
+    done: bool,
+}
+
+const INJECT_ALPHABET: &[&str] = &["g20", "g21", "g22", "g23", "p23", "p21", "c20"];
+
+impl Inject {
+    fn from_json(v: &Value, dir: Dir, seed: u64) -> Option<Inject> {
+        if v.as_bool() == Some(true) {
+            // the original single-record probe
+            return Some(Inject { dir, pos: 0, coalesced: false, seq: vec!["p23".into()], garbage_seed: seed, seen: 0, done: false });
+        }
+        let seq: Vec<String> = v["seq"].as_array()?.iter().filter_map(|x| x.as_str()).map(|x| x.to_string()).collect();
+        if seq.is_empty() {
+            return None;
+        }
+        Some(Inject {
+            dir,
+            pos: v["pos"].as_u64().unwrap_or(0) as u32,
+            coalesced: v["coalesced"].as_bool().unwrap_or(false),
+            seq,
+            garbage_seed: seed,
+            seen: 0,
+            done: false,
+        })
+    }
+    fn describe(v: &Value) -> String {
+        if v.as_bool() == Some(true) {
+            return "p23".into();
+        }
+        let seq: Vec<&str> = v["seq"].as_array().map(|a| a.iter().filter_map(|x| x.as_str()).collect()).unwrap_or_default();
+        format!("{}/{}", seq.join(">"), if v["coalesced"].as_bool().unwrap_or(false) { "coalesced" } else { "separate" })
+    }
+    fn datagrams(&self) -> Vec<Vec<u8>> {
+        let mut rng = Rng::new(self.garbage_seed).fork(0x1e7);
+        let mut recs: Vec<Vec<u8>> = vec![];
+        for (i, tok) in self.seq.iter().enumerate() {
+            let ver = [0xfe, 0xfd];
+            let r = match tok.as_str() {
+                "p23" => {
+                    let mut body = INJECT_PAYLOAD.to_vec();
+                    body.extend_from_slice(format!("#{i}").as_bytes());
+                    Rec { ctype: 23, ver, epoch: 0, seq: 0xFFF0 + i as u64, body }
+                }
+                "p21" => Rec { ctype: 21, ver, epoch: 0, seq: 0xFFF0 + i as u64, body: vec![1, 100] },
+                "c20" => Rec { ctype: 20, ver, epoch: 0, seq: 0xFFF0 + i as u64, body: vec![1] },
+                g => {
+                    let ctype = match g {
+                        "g20" => 20,
+                        "g21" => 21,
+                        "g23" => 23,
+                        _ => 22,
+                    };
+                    // shaped like an AES-GCM record: explicit nonce + ciphertext + tag
+                    let n = 32 + rng.usize_below(24);
+                    Rec { ctype, ver, epoch: 1, seq: i as u64, body: rng.bytes(n) }
+                }
+            };
+            let mut o = vec![];
+            enc_record(&r, &mut o);
+            recs.push(o);
+        }
+        if self.coalesced { vec![recs.concat()] } else { recs }
+    }
 }
 
 fn flip(buf: &mut [u8], lo: usize, hi: usize, bit: usize) -> bool {
@@ -558,14 +651,14 @@ impl Tamper {
     /// returns the datagrams to deliver instead of `d`
     fn apply(&mut self, dir: Dir, d: &[u8]) -> Vec<Vec<u8>> {
         let mut pre: Vec<Vec<u8>> = vec![];
-        if self.inject_dir == Some(dir) && !self.injected {
-            self.injected = true;
-            let mut o = vec![];
-            enc_record(
-                &Rec { ctype: 23, ver: [0xfe, 0xfd], epoch: 0, seq: 0xFFFF, body: INJECT_PAYLOAD.to_vec() },
-                &mut o,
-            );
-            pre.push(o);
+        if let Some(inj) = self.inject.as_mut() {
+            if inj.dir == dir && !inj.done {
+                if inj.seen == inj.pos {
+                    inj.done = true;
+                    pre.extend(inj.datagrams());
+                }
+                inj.seen += 1;
+            }
         }
         let Some(recs) = parse_records(d) else {
             pre.push(d.to_vec());
@@ -1105,19 +1198,165 @@ impl Takeover {
 }
 
 // =====================================================================================
+// C11: racing senders
+//
+// "application data sent by one Connected side is readable by the other": an application thread
+// that polls `get_state()` may call `send()` at the very instant the transport shows Connected.  A
+// plain OS thread per endpoint does exactly that (it sleeps in short naps and spins only while a
+// datagram that can complete the handshake is being processed), next to a configurable number of
+// ordinary state-watch subscribers.  What it sent with `Ok` is checked by the C11 oracle.
+// =====================================================================================
+
+const RACER_SPIN_MS: u64 = 25;
+const RACER_SENDS: usize = 3;
+
+#[derive(Default)]
+struct RaceResult {
+    /// Connected was observed by the spinning thread (not after a nap)
+    saw_connected_spinning: bool,
+    /// payloads whose send() returned Ok (the thread had observed Connected before every call)
+    sent_ok: Vec<Vec<u8>>,
+    send_errors: Vec<String>,
+    ended_without_connected: Option<&'static str>,
+}
+
+struct RacerShared {
+    t0: Instant,
+    spin_until_us: std::sync::atomic::AtomicU64,
+    stop: std::sync::atomic::AtomicBool,
+    done: std::sync::atomic::AtomicBool,
+    thread: Mutex<Option<std::thread::Thread>>,
+    res: Mutex<RaceResult>,
+}
+
+impl RacerShared {
+    fn arm(&self, d: Duration) {
+        let until = (self.t0.elapsed() + d).as_micros() as u64;
+        self.spin_until_us.fetch_max(until, Ordering::SeqCst);
+        if let Some(t) = &*self.thread.lock() {
+            t.unpark();
+        }
+    }
+    fn stop(&self) {
+        self.stop.store(true, Ordering::SeqCst);
+        if let Some(t) = &*self.thread.lock() {
+            t.unpark();
+        }
+    }
+}
+
+/// Busy-drive one future to completion on the calling (non-runtime) thread.
+fn drive<F: std::future::Future>(fut: F, limit: Duration) -> Option<F::Output> {
+    let mut fut = Box::pin(fut);
+    let mut cx = std::task::Context::from_waker(std::task::Waker::noop());
+    let t = Instant::now();
+    loop {
+        if let std::task::Poll::Ready(v) = fut.as_mut().poll(&mut cx) {
+            return Some(v);
+        }
+        if t.elapsed() > limit {
+            return None;
+        }
+        std::hint::spin_loop();
+    }
+}
+
+fn race_payload(side: &str, i: usize) -> Vec<u8> {
+    format!("C11-RACE-{side}-{i}-sent-the-instant-get_state-showed-Connected").into_bytes()
+}
+
+fn spawn_racer(dtls: Arc<DtlsTransport>, side: &'static str, t0: Instant) -> Result<Arc<RacerShared>, String> {
+    let sh = Arc::new(RacerShared {
+        t0,
+        spin_until_us: std::sync::atomic::AtomicU64::new(0),
+        stop: std::sync::atomic::AtomicBool::new(false),
+        done: std::sync::atomic::AtomicBool::new(false),
+        thread: Mutex::new(None),
+        res: Mutex::new(RaceResult::default()),
+    });
+    let sh2 = sh.clone();
+    let handle = tokio::runtime::Handle::current();
+    let jh = std::thread::Builder::new()
+        .name(format!("c11-racer-{side}"))
+        .stack_size(256 * 1024)
+        .spawn(move || {
+            let _g = handle.enter();
+            let sh = sh2;
+            let mut spinning = false;
+            let connected = loop {
+                match dtls.get_state() {
+                    DtlsState::Connected(..) => break true,
+                    DtlsState::Failed => {
+                        sh.res.lock().ended_without_connected = Some("Failed");
+                        break false;
+                    }
+                    DtlsState::Closed => {
+                        sh.res.lock().ended_without_connected = Some("Closed");
+                        break false;
+                    }
+                    _ => {}
+                }
+                if sh.stop.load(Ordering::SeqCst) {
+                    sh.res.lock().ended_without_connected = Some("stopped");
+                    break false;
+                }
+                if (sh.t0.elapsed().as_micros() as u64) < sh.spin_until_us.load(Ordering::Relaxed) {
+                    spinning = true;
+                    std::hint::spin_loop();
+                } else {
+                    spinning = false;
+                    std::thread::park_timeout(Duration::from_millis(4));
+                }
+            };
+            if connected {
+                // the instant Connected is visible: send, back to back
+                let mut oks = vec![];
+                let mut errs = vec![];
+                for i in 0..RACER_SENDS {
+                    let p = race_payload(side, i);
+                    match drive(dtls.send(Bytes::from(p.clone())), Duration::from_secs(2)) {
+                        Some(Ok(())) => oks.push(p),
+                        Some(Err(e)) => errs.push(e.to_string()),
+                        None => errs.push("send() did not complete within 2 s of busy polling".into()),
+                    }
+                }
+                let mut g = sh.res.lock();
+                g.saw_connected_spinning = spinning;
+                g.sent_ok = oks;
+                g.send_errors = errs;
+            }
+            sh.done.store(true, Ordering::SeqCst);
+        })
+        .map_err(|e| format!("spawn racer thread: {e}"))?;
+    *sh.thread.lock() = Some(jh.thread().clone());
+    // detached: the thread ends by itself (Connected / Failed / Closed / stop)
+    drop(jh);
+    Ok(sh)
+}
+
+// =====================================================================================
 // the wire
 // =====================================================================================
 
 #[derive(Clone)]
 enum Sink {
-    Rust(Arc<IceConn>, SocketAddr),
+    Rust(Arc<IceConn>, SocketAddr, Option<Arc<RacerShared>>),
     Chan(mpsc::UnboundedSender<Vec<u8>>),
 }
 
 impl Sink {
     async fn deliver(&self, d: Vec<u8>) {
         match self {
-            Sink::Rust(conn, from) => {
+            Sink::Rust(conn, from, racer) => {
+                if let Some(r) = racer {
+                    // a datagram that can complete the handshake of the receiving side (CCS / protected
+                    // handshake record) is about to be processed: the racing sender of that side stops
+                    // sleeping and spins on get_state() for a moment
+                    let finishing = parse_records(&d).map(|rs| rs.iter().any(|x| x.ctype == 20 || (x.ctype == 22 && x.epoch > 0))).unwrap_or(false);
+                    if finishing {
+                        r.arm(Duration::from_millis(RACER_SPIN_MS));
+                    }
+                }
                 let mut mb = Vec::new();
                 conn.receive(Bytes::from(d), *from, &mut mb).await;
             }
@@ -1144,12 +1383,18 @@ struct WireShared {
     saw_cert_request: bool,
     saw_client_cert: bool,
     tamper_applied: u32,
+    inject_done: bool,
     refrag_not_applicable: u32,
     /// post-heal retransmitted datagrams whose records all reuse an (epoch, seq) this side used before / not
     post_heal_replays: [u32; 2],
     post_heal_fresh: [u32; 2],
     takeover_obs: Option<Value>,
     follow_applied: u32,
+    /// application-only datagrams per direction as seen on the wire: (epoch, record seq, that
+    /// (epoch, seq) was used before by this side)
+    app_recs: [Vec<(u16, u64, bool)>; 2],
+    /// application datagrams that had to wait in the wire until their receiver was Connected
+    app_waited: u32,
 }
 
 impl WireShared {
@@ -1187,9 +1432,33 @@ struct Wire {
     renumber: bool,
     next_seq: [u64; 2],
     last_fire: Instant,
+    /// racing-sender scenarios: an application-only datagram is delivered only once its receiver is
+    /// Connected (a delay - legal network behaviour; per-direction FIFO among application datagrams
+    /// is kept), so "sent by a Connected side" meets "the other side is Connected"
+    hold_app: bool,
+    peer_dtls: [Option<Arc<DtlsTransport>>; 2], // index = destination of Dir
+    held_app: [Vec<Vec<u8>>; 2],
 }
 
 impl Wire {
+    async fn flush_app(&mut self, dir: Dir) {
+        let di = dir as usize;
+        if self.held_app[di].is_empty() {
+            return;
+        }
+        let ready = match &self.peer_dtls[di] {
+            Some(t) => matches!(t.get_state(), DtlsState::Connected(..)),
+            None => true,
+        };
+        if !ready {
+            return;
+        }
+        let ds = std::mem::take(&mut self.held_app[di]);
+        let n = ds.len() as u32;
+        self.deliver_now(dir, ds).await;
+        self.shared.lock().delivered_app[di] += n;
+    }
+
     fn log(&self, dir: Dir, class: &str, len: usize, what: &str) {
         let mut g = self.shared.lock();
         if g.log.len() < 300 {
@@ -1228,6 +1497,7 @@ impl Wire {
         let healed;
         let recseqs: Vec<(u16, u64)> = parse_records(&d).map(|r| r.iter().map(|x| (x.epoch, x.seq)).collect()).unwrap_or_default();
         let all_reused = !recseqs.is_empty() && recseqs.iter().all(|k| self.seen_recseq[di].contains(k));
+        let reused_each: Vec<bool> = recseqs.iter().map(|k| self.seen_recseq[di].contains(k)).collect();
         for k in &recseqs {
             self.seen_recseq[di].insert(*k);
         }
@@ -1243,6 +1513,11 @@ impl Wire {
                 g.saw_client_cert = true;
             }
             healed = g.healed_at.is_some();
+            if app_only && g.app_recs[di].len() < 24 {
+                for (k, reused) in recseqs.iter().zip(reused_each.iter()) {
+                    g.app_recs[di].push((k.0, k.1, *reused));
+                }
+            }
             if !app_only {
                 let is_retx = self.seen_keys[di].contains(&key);
                 if is_retx {
@@ -1311,9 +1586,24 @@ impl Wire {
             let before = t.applied;
             let out = t.apply(dir, &d);
             let applied = t.applied;
-            self.shared.lock().tamper_applied = applied;
+            {
+                let mut g = self.shared.lock();
+                g.tamper_applied = applied;
+                g.inject_done = t.inject.as_ref().map(|i| i.done).unwrap_or(false);
+            }
             self.log(dir, &class, d.len(), if applied > before { "tampered" } else { "pass" });
             self.deliver_now(dir, out).await;
+            return;
+        }
+
+        // ---- racing-sender scenarios: application datagrams wait for a Connected receiver
+        if app_only && self.hold_app {
+            self.log(dir, &class, d.len(), "application datagram");
+            self.held_app[di].push(d);
+            self.flush_app(dir).await;
+            if !self.held_app[di].is_empty() {
+                self.shared.lock().app_waited += 1;
+            }
             return;
         }
 
@@ -1467,6 +1757,10 @@ impl Wire {
 
     /// periodic: release stale swap holds, cancel rules that cannot fire any more, decide "healed"
     async fn housekeeping(&mut self) {
+        if self.hold_app {
+            self.flush_app(Dir::C2S).await;
+            self.flush_app(Dir::S2C).await;
+        }
         for di in 0..2 {
             let stale = matches!(&self.held[di], Some((_, t)) if t.elapsed() > Duration::from_millis(400));
             if stale {
@@ -1639,6 +1933,7 @@ impl RustEp {
         is_client: bool,
         expected_fp: Option<String>,
         start: bool,
+        extra_subscribers: usize,
     ) -> Result<(RustEp, Option<std::pin::Pin<Box<dyn std::future::Future<Output = ()> + Send>>>), String> {
         let sock = Arc::new(UdpSocket::bind("127.0.0.1:0").await.map_err(|e| format!("bind: {e}"))?);
         let addr = sock.local_addr().map_err(|e| format!("local_addr: {e}"))?;
@@ -1670,6 +1965,15 @@ impl RustEp {
                     if srx.changed().await.is_err() {
                         break;
                     }
+                }
+            }));
+        }
+        // ordinary state-watch subscribers, the way upper layers learn about Connected
+        for _ in 0..extra_subscribers {
+            let mut srx = dtls.subscribe_state();
+            tasks.push(tokio::spawn(async move {
+                while srx.changed().await.is_ok() {
+                    let _ = map_state(&srx.borrow_and_update());
                 }
             }));
         }
@@ -1932,10 +2236,15 @@ struct Rig {
     shared: Arc<Mutex<WireShared>>,
     tasks: Vec<JoinHandle<()>>,
     t0: Instant,
+    /// racing senders [client, server]
+    racers: [Option<Arc<RacerShared>>; 2],
 }
 
 impl Drop for Rig {
     fn drop(&mut self) {
+        for r in self.racers.iter().flatten() {
+            r.stop();
+        }
         for t in &self.tasks {
             t.abort();
         }
@@ -1952,6 +2261,8 @@ struct RigCfg {
     client_expect: Option<String>,
     server_expect: Option<String>,
     force_renumber: bool,
+    /// Some(k): a racing sender thread and k ordinary state subscribers on every rustrtc endpoint
+    race: Option<usize>,
 }
 
 async fn build_rig(cfg: RigCfg) -> Result<Rig, String> {
@@ -1968,20 +2279,33 @@ async fn build_rig(cfg: RigCfg) -> Result<Rig, String> {
     let mut server_runner = None;
     if client_is_rust {
         let cert = match cfg.client_cert { Some(c) => c, None => gen_cert()? };
-        let (ep, r) = RustEp::new(waddr, cert, true, cfg.client_expect.clone(), false).await?;
+        let (ep, r) = RustEp::new(waddr, cert, true, cfg.client_expect.clone(), false, cfg.race.unwrap_or(0)).await?;
         rust_client = Some(ep);
         client_runner = r;
     }
     if server_is_rust {
         let cert = match cfg.server_cert { Some(c) => c, None => gen_cert()? };
-        let (ep, r) = RustEp::new(waddr, cert, false, cfg.server_expect.clone(), false).await?;
+        let (ep, r) = RustEp::new(waddr, cert, false, cfg.server_expect.clone(), false, cfg.race.unwrap_or(0)).await?;
         rust_server = Some(ep);
         server_runner = r;
+    }
+    let t0 = Instant::now();
+    let mut racers: [Option<Arc<RacerShared>>; 2] = [None, None];
+    let mut peer_dtls: [Option<Arc<DtlsTransport>>; 2] = [None, None];
+    if cfg.race.is_some() {
+        if let Some(e) = &rust_client {
+            racers[0] = Some(spawn_racer(e.dtls.clone(), "client", t0)?);
+            peer_dtls[Dir::S2C as usize] = Some(e.dtls.clone());
+        }
+        if let Some(e) = &rust_server {
+            racers[1] = Some(spawn_racer(e.dtls.clone(), "server", t0)?);
+            peer_dtls[Dir::C2S as usize] = Some(e.dtls.clone());
+        }
     }
     let mut ref_client_rx = None;
     let mut ref_server_rx = None;
     let server_sink = match &rust_server {
-        Some(e) => Sink::Rust(e.conn.clone(), waddr),
+        Some(e) => Sink::Rust(e.conn.clone(), waddr, racers[1].clone()),
         None => {
             let (tx, rx) = mpsc::unbounded_channel();
             ref_server_rx = Some(rx);
@@ -1989,7 +2313,7 @@ async fn build_rig(cfg: RigCfg) -> Result<Rig, String> {
         }
     };
     let client_sink = match &rust_client {
-        Some(e) => Sink::Rust(e.conn.clone(), waddr),
+        Some(e) => Sink::Rust(e.conn.clone(), waddr, racers[0].clone()),
         None => {
             let (tx, rx) = mpsc::unbounded_channel();
             ref_client_rx = Some(rx);
@@ -2001,7 +2325,6 @@ async fn build_rig(cfg: RigCfg) -> Result<Rig, String> {
         Mode::Rules(r) => r.iter().any(|x| matches!(x.act, Act::Refrag(..) | Act::PartialRefrag { .. })),
         Mode::Random(p) => p.refrag > 0,
     } || cfg.force_renumber;
-    let t0 = Instant::now();
     let wire = Wire {
         t0,
         mode: cfg.mode,
@@ -2019,6 +2342,9 @@ async fn build_rig(cfg: RigCfg) -> Result<Rig, String> {
         renumber,
         next_seq: [0x10_0000, 0x10_0000],
         last_fire: t0,
+        hold_app: cfg.race.is_some(),
+        peer_dtls,
+        held_app: [vec![], vec![]],
     };
     let mut tasks = vec![spawn_wire(wire, rx_wire)];
     // pump: everything a rustrtc endpoint writes arrives on the wire socket
@@ -2060,7 +2386,7 @@ async fn build_rig(cfg: RigCfg) -> Result<Rig, String> {
         }
         None => Ep::Ref(RefEp::new(true, tx_wire.clone(), ref_client_rx.take().ok_or("no rx")?)?),
     };
-    Ok(Rig { client, server, shared, tasks, t0 })
+    Ok(Rig { client, server, shared, tasks, t0, racers })
 }
 
 struct Outcome {
@@ -2125,6 +2451,7 @@ async fn run_c11(sc: Value) -> Outcome {
         client_expect: None,
         server_expect: None,
         force_renumber: sc["renumber"].as_bool().unwrap_or(false),
+        race: if sc["race"].is_object() { Some(sc["race"]["subs"].as_u64().unwrap_or(0) as usize) } else { None },
     })
     .await
     {
@@ -2135,6 +2462,10 @@ async fn run_c11(sc: Value) -> Outcome {
     let mut max_lag_post_heal: u128 = 0;
     let mut last_tick = Instant::now();
     let mut connected_at: [Option<u128>; 2] = [None, None];
+    let mut race_obs: [Value; 2] = [Value::Null, Value::Null];
+    let mut race_live = 0u64;
+    let mut race_spin_hits = 0u64;
+    let racing = rig.racers.iter().any(|r| r.is_some());
     let verdict: Verdict;
     loop {
         tokio::time::sleep(Duration::from_millis(10)).await;
@@ -2173,7 +2504,42 @@ async fn run_c11(sc: Value) -> Outcome {
                 );
                 break;
             }
-            verdict = markers(&mut rig, &pair).await;
+            // racing senders: both sides are Connected, so each racer sees Connected at its next look
+            // and finishes; what it sent with Ok must come out at the peer before the marker
+            let mut raced: [Vec<Vec<u8>>; 2] = [vec![], vec![]];
+            let mut racers_pending = false;
+            if rig.racers.iter().any(|r| r.is_some()) {
+                let t = Instant::now();
+                loop {
+                    if rig.racers.iter().flatten().all(|r| r.done.load(Ordering::SeqCst)) {
+                        break;
+                    }
+                    if t.elapsed() > Duration::from_secs(5) {
+                        racers_pending = true;
+                        break;
+                    }
+                    tokio::time::sleep(Duration::from_millis(1)).await;
+                }
+                for (i, r) in rig.racers.iter().enumerate() {
+                    if let Some(r) = r {
+                        let g = r.res.lock();
+                        raced[i] = g.sent_ok.clone();
+                        race_obs[i] = json!({"observed_connected_while_spinning": g.saw_connected_spinning, "sends_ok": g.sent_ok.len(),
+                            "send_errors": g.send_errors, "ended_without_connected": g.ended_without_connected});
+                        if !g.sent_ok.is_empty() {
+                            race_live += 1;
+                            if g.saw_connected_spinning {
+                                race_spin_hits += 1;
+                            }
+                        }
+                    }
+                }
+            }
+            if racers_pending {
+                verdict = Verdict::Inconclusive("racing sender thread did not finish within 5 s of both sides being Connected".into());
+                break;
+            }
+            verdict = markers(&mut rig, &pair, &raced).await;
             break;
         }
         // ---- terminal failure of a side although the network is (or will be) fine.
@@ -2308,46 +2674,82 @@ async fn run_c11(sc: Value) -> Outcome {
         Verdict::Violated { .. } => counts.push(("violated".into(), 1)),
         _ => {}
     }
+    if racing {
+        counts.push(("racing_sender_scenarios".into(), 1));
+        counts.push(("racing_senders_sent_on_connected".into(), race_live));
+        counts.push(("racing_senders_saw_connected_while_spinning".into(), race_spin_hits));
+        counts.push(("app_datagrams_held_for_connected_receiver".into(), g.app_waited as u64));
+        sets.push(("racing_sender_subscribers", format!("{}", sc["race"]["subs"].as_u64().unwrap_or(0))));
+    }
     let obs = json!({"pair": pair, "fired": g.fired, "retx": g.retx_total, "dur_ms": dur,
+        "racing_senders": if racing { json!({"client": race_obs[0], "server": race_obs[1]}) } else { Value::Null },
         "connected_at_ms": {"client": connected_at[0].map(|x| x as u64), "server": connected_at[1].map(|x| x as u64)},
         "healed_at_ms": g.healed_at.map(|h| h.duration_since(rig.t0).as_millis() as u64),
         "retransmissions_delivered_refragmented": g.follow_applied,
         "datagrams": {"c2s": g.n_datagrams[0], "s2c": g.n_datagrams[1]}, "log": g.log.iter().take(40).collect::<Vec<_>>()});
-    let nontrivial = !g.fired.is_empty();
+    let nontrivial = !g.fired.is_empty() || race_live > 0;
     drop(g);
     Outcome { verdict, nontrivial, obs, counts, sets }
 }
 
-/// marker payload each way; both sides are Connected on the same keys here
-async fn markers(rig: &mut Rig, pair: &str) -> Verdict {
+/// marker payload each way; both sides are Connected on the same keys here.
+/// `raced[i]` = payloads the racing sender of side i (0 client, 1 server) sent with `Ok` after it had
+/// observed its own side Connected.  The receive path is FIFO (same socket, wire keeps the order of
+/// application datagrams), so the marker - sent after the racer finished - is the barrier: a raced
+/// payload that has not come out when the marker comes out never will.
+async fn markers(rig: &mut Rig, pair: &str, raced: &[Vec<Vec<u8>>; 2]) -> Verdict {
     for dir in [Dir::C2S, Dir::S2C] {
         let payload = format!("C11-MARKER-{}-{:016x}", dir.name(), fnv64(pair.as_bytes()) ^ 0x5a5a).into_bytes();
         let before = rig.shared.lock().delivered_app[dir as usize];
+        let expect_first = &raced[if dir == Dir::C2S { 0 } else { 1 }];
         let (tx_ep, rx_ep) = if dir == Dir::C2S { (&rig.client, &mut rig.server) } else { (&rig.server, &mut rig.client) };
         if let Err(e) = tx_ep.send_app(&payload).await {
             return Verdict::Inconclusive(format!("marker send {} failed: {e}", dir.name()));
         }
         let t = Instant::now();
-        match rx_ep.recv_app(Duration::from_secs(4)).await {
-            Some(p) if p == payload => {}
-            Some(p) => {
-                return Verdict::violated(
-                    format!("appdata:pair={pair},dir={},corrupted", dir.name()),
-                    "marker payload arrived altered although both sides are Connected on equal keys",
-                    json!({"sent": hex(&payload), "got": hex_cap(&p, 128)}),
-                );
-            }
-            None => {
-                let delivered = rig.shared.lock().delivered_app[dir as usize] > before;
-                if delivered && t.elapsed() >= Duration::from_secs(3) {
+        let mut got: Vec<Vec<u8>> = vec![];
+        loop {
+            match rx_ep.recv_app(Duration::from_secs(4)).await {
+                Some(p) if p == payload => break,
+                Some(p) if expect_first.contains(&p) && !got.contains(&p) => got.push(p),
+                Some(p) => {
                     return Verdict::violated(
-                        format!("appdata:pair={pair},dir={},delivered_not_readable", dir.name()),
-                        "both sides Connected on equal keys; the application record reached the peer but was never yielded (4 s)",
-                        json!({"sent": hex(&payload)}),
+                        format!("appdata:pair={pair},dir={},corrupted", dir.name()),
+                        "a payload arrived altered (or twice) although both sides are Connected on equal keys",
+                        json!({"sent_marker": hex(&payload), "sent_at_connected": expect_first.iter().map(|x| hex(x)).collect::<Vec<_>>(), "got": hex_cap(&p, 128)}),
                     );
                 }
-                return Verdict::Inconclusive(format!("marker {} not seen on the wire", dir.name()));
+                None => {
+                    let delivered = rig.shared.lock().delivered_app[dir as usize] > before;
+                    if delivered && t.elapsed() >= Duration::from_secs(3) {
+                        return Verdict::violated(
+                            format!("appdata:pair={pair},dir={},delivered_not_readable", dir.name()),
+                            "both sides Connected on equal keys; the application record reached the peer but was never yielded (4 s)",
+                            json!({"sent": hex(&payload)}),
+                        );
+                    }
+                    return Verdict::Inconclusive(format!("marker {} not seen on the wire", dir.name()));
+                }
             }
+        }
+        let missing: Vec<&Vec<u8>> = expect_first.iter().filter(|p| !got.contains(p)).collect();
+        if !missing.is_empty() {
+            // what the wire saw of this direction's application records
+            let recs = rig.shared.lock().app_recs[dir as usize].clone();
+            let class = if recs.iter().any(|r| r.0 == 0) {
+                "epoch0_application_record"
+            } else if recs.iter().any(|r| r.2) {
+                "record_epoch_seq_reused"
+            } else {
+                "records_wellformed"
+            };
+            return Verdict::violated(
+                format!("appdata:pair={pair},dir={},sent_at_connected_not_readable,wire={class}", dir.name()),
+                "send() returned Ok on a side whose state was Connected, the peer is Connected on the same keys and received every datagram, a later marker on the same path came out - but this payload never did",
+                json!({"missing": missing.iter().map(|x| String::from_utf8_lossy(x).to_string()).collect::<Vec<_>>(),
+                       "came_out_before_marker": got.iter().map(|x| String::from_utf8_lossy(x).to_string()).collect::<Vec<_>>(),
+                       "application_records_on_the_wire(epoch,seq,reused)": recs.iter().map(|r| json!([r.0, r.1, r.2])).collect::<Vec<_>>()}),
+            );
         }
     }
     Verdict::Held
@@ -2384,6 +2786,7 @@ async fn takeover_once(shape: &str, sig: &str, seed: u64, cutoff: Duration) -> R
         client_expect: Some(expectation),
         server_expect: None,
         force_renumber: false,
+        race: None,
     })
     .await?;
     let mut end;
@@ -2516,7 +2919,8 @@ async fn run_c02(sc: Value) -> Outcome {
     let expect = sc["expect"].as_str().unwrap_or("absent").to_string();
     let peer = sc["peer"].as_str().unwrap_or("genuine").to_string();
     let tamper = sc["tamper"].as_str().unwrap_or("none").to_string();
-    let inject = sc["inject"].as_bool().unwrap_or(false);
+    let inject_v = sc["inject"].clone();
+    let via = sc["via"].as_str().unwrap_or("direct").to_string();
     let bit = sc["bit"].as_u64().unwrap_or(0) as usize;
     let cutoff = Duration::from_millis(sc["cutoff_ms"].as_u64().unwrap_or(4000));
     let eut_is_client = role == "client";
@@ -2553,14 +2957,61 @@ async fn run_c02(sc: Value) -> Outcome {
     let mut rb = Rng::new(bit as u64 ^ 0xC02).bytes(32);
     rb[0] |= 1;
     let random_fp = rb.iter().map(|b| format!("{:02X}", b)).collect::<Vec<_>>().join(":");
-    let expectation: Option<String> = match expect.as_str() {
+    // the digest of the certificate the peer presents, computed by the harness
+    let actual_digest: Vec<u8> = Sha256::digest(&peer_cert.certificate[0]).to_vec();
+    let canon = |b: &[u8]| b.iter().map(|x| format!("{:02X}", x)).collect::<Vec<_>>().join(":");
+    // textual expectation as signalling would carry it
+    let text: Option<String> = match expect.as_str() {
         "correct" => Some(presented_fp.clone()),
         "random" => Some(random_fp),
         "other" => Some(rdtls::fingerprint(&x)),
+        // boundary values around the correct digest: proper prefixes, extensions, other spellings
+        "prefix31" => Some(canon(&actual_digest[..31])),
+        "prefix16" => Some(canon(&actual_digest[..16])),
+        "prefix8" => Some(canon(&actual_digest[..8])),
+        "prefix1" => Some(canon(&actual_digest[..1])),
+        "empty" => Some(String::new()),
+        "extra1" => Some(format!("{}:{:02X}", canon(&actual_digest), rb[1])),
+        "extra32" => Some(format!("{}:{}", canon(&actual_digest), canon(&actual_digest))),
+        "lower" => Some(canon(&actual_digest).to_ascii_lowercase()),
+        "nosep" => Some(canon(&actual_digest).replace(':', "")),
+        "lower_nosep" => Some(canon(&actual_digest).replace(':', "").to_ascii_lowercase()),
         _ => None,
     };
-    // authentic BY CONSTRUCTION: only the client role can be (the server role never sees a certificate)
-    let authentic = eut_is_client && expect == "correct" && peer == "genuine" && tamper == "none";
+    // via=sdp: the text goes through rustrtc's own SDP fingerprint parser first, exactly what
+    // PeerConnection::set_remote_description hands to the DTLS transport
+    let expectation: Option<String> = match (&text, via.as_str()) {
+        (Some(t), "sdp") => match rustrtc::sdp::SdpFingerprint::parse(&format!("sha-256 {t}")) {
+            Ok(f) => Some(f.value),
+            Err(e) => {
+                return Outcome {
+                    verdict: Verdict::Held,
+                    nontrivial: false,
+                    obs: json!({"scenario": format!("role={role},expect={expect},via=sdp"), "sdp_layer": format!("rejected: {e:?}")}),
+                    counts: vec![("expectation_not_signallable:rejected_by_sdp_layer".into(), 1)],
+                    sets: vec![("expectations", format!("{role}:{expect}:via_sdp:rejected_by_sdp_layer"))],
+                };
+            }
+        },
+        (t, _) => t.clone(),
+    };
+    // LABEL BY CONSTRUCTION.  The expectation denotes a digest (hex, any case, ':' separators
+    // optional); it is satisfied iff those bytes ARE the SHA-256 digest of the presented certificate.
+    let expected_bytes: Option<Vec<u8>> = expectation.as_ref().and_then(|e| {
+        let h: String = e.chars().filter(|c| *c != ':').collect();
+        if h.is_empty() || h.len() % 2 != 0 || !h.chars().all(|c| c.is_ascii_hexdigit()) {
+            return None;
+        }
+        Some(unhex(&h))
+    });
+    let digest_equal = expected_bytes.as_deref() == Some(&actual_digest[..]);
+    if expect == "correct" && (!digest_equal || canon(&actual_digest) != presented_fp) {
+        return inconclusive("harness: own SHA-256 of the presented certificate differs from rustrtc::fingerprint".into());
+    }
+    // rustrtc's canonical spelling (what its own SDP layer produces)
+    let canonical = expectation.as_deref() == Some(presented_fp.as_str());
+    // authentic: only the client role can be (the server role never sees a certificate)
+    let authentic = eut_is_client && digest_equal && peer == "genuine" && tamper == "none";
     let sanity = expect == "absent" && peer == "genuine" && tamper == "none";
 
     let fin_dir = if eut_is_client { Dir::S2C } else { Dir::C2S };
@@ -2569,8 +3020,7 @@ async fn run_c02(sc: Value) -> Outcome {
         bit,
         other_der: x.certificate[0].clone(),
         fin_dir,
-        inject_dir: if inject { Some(fin_dir) } else { None },
-        injected: false,
+        inject: Inject::from_json(&inject_v, fin_dir, bit as u64),
         held_cert: None,
         applied: 0,
     };
@@ -2589,6 +3039,7 @@ async fn run_c02(sc: Value) -> Outcome {
         client_expect,
         server_expect,
         force_renumber: false,
+        race: None,
     })
     .await
     {
@@ -2630,23 +3081,47 @@ async fn run_c02(sc: Value) -> Outcome {
             data,
         )
     };
-    let (tamper_applied, saw_creq, saw_ccert, dgrams, log) = {
+    let (tamper_applied, inject_done, saw_creq, saw_ccert, dgrams, log) = {
         let g = rig.shared.lock();
-        (g.tamper_applied, g.saw_cert_request, g.saw_client_cert, g.n_datagrams, g.log.iter().take(30).cloned().collect::<Vec<_>>())
+        (g.tamper_applied, g.inject_done, g.saw_cert_request, g.saw_client_cert, g.n_datagrams, g.log.iter().take(30).cloned().collect::<Vec<_>>())
     };
-    let tag = format!("role={role},expect={expect},peer={peer},tamper={tamper}");
+    let injecting = inject_v.as_bool() == Some(true) || inject_v.is_object();
+    let inject_desc = if injecting { Inject::describe(&inject_v) } else { String::new() };
+    let mut tag = format!("role={role},expect={expect},peer={peer},tamper={tamper}");
+    if via != "direct" {
+        tag.push_str(&format!(",via={via}"));
+    }
+    if inject_v.is_object() {
+        tag.push_str(&format!(",inject={inject_desc}@{}", inject_v["pos"].as_u64().unwrap_or(0)));
+    }
     let witness = json!({"states_seen": states, "end": end.name(), "ever_connected": ever, "ekm_exported": ekm_ok,
         "appdata_yielded": got_data.iter().map(|d| hex_cap(d, 48)).collect::<Vec<_>>(), "tamper_applied": tamper_applied,
-        "saw_certificate_request": saw_creq, "saw_client_certificate": saw_ccert, "wire": log});
+        "saw_certificate_request": saw_creq, "saw_client_certificate": saw_ccert, "wire": log,
+        "expectation_given": expectation, "presented_certificate_sha256": canon(&actual_digest), "digest_equal": digest_equal,
+        "injected_sequence": if injecting { json!(inject_desc) } else { Value::Null }, "injection_delivered": inject_done});
     let reached = dgrams[if eut_is_client { 1 } else { 0 }] > 0;
     let mut counts: Vec<(String, u64)> = vec![(format!("end_state:{}", end.name()), 1), (format!("role:{role}"), 1)];
     let mut sets = vec![("tamper_classes_applied", format!("{role}:{tamper}:{}", if tamper_applied > 0 || tamper == "none" { "applied" } else { "not_reached" }))];
-    sets.push(("expectations", format!("{role}:{expect}:{peer}")));
+    sets.push(("expectations", format!("{role}:{expect}:{peer}{}", if via != "direct" { format!(":via_{via}") } else { String::new() })));
+    if injecting {
+        sets.push(("injection_sequences", format!("{role}:{inject_desc}:{}", if inject_done { "delivered" } else { "not_reached" })));
+        if inject_done {
+            counts.push(("injection_sequences_delivered".into(), 1));
+        }
+    }
 
     let verdict = if authentic || sanity {
         // non-vacuity only: the statement says "only if", it does not promise Connected
         if ever {
             counts.push((if authentic { "authentic_connected" } else { "no_expectation_connected" }.into(), 1));
+            if authentic && !canonical {
+                counts.push((format!("observe_only:same_digest_other_spelling,expect={expect},connected=true"), 1));
+            }
+            Verdict::Held
+        } else if authentic && !canonical {
+            // the same digest in another spelling (case / separators) handed over verbatim: the
+            // statement says "only if" - refusing it is allowed
+            counts.push((format!("observe_only:same_digest_other_spelling,expect={expect},connected=false"), 1));
             Verdict::Held
         } else {
             Verdict::Inconclusive(format!("{tag}: untampered handshake did not connect (end={})", end.name()))
@@ -2673,11 +3148,15 @@ async fn run_c02(sc: Value) -> Outcome {
     } else if ekm_ok {
         Verdict::violated(format!("{tag},ekm=exported"), "keying material exported without an authenticated peer", witness.clone())
     } else if !got_data.is_empty() {
-        let injected = got_data.iter().any(|d| d == INJECT_PAYLOAD);
+        let injected = got_data.iter().any(|d| d.starts_with(INJECT_PAYLOAD));
         got_data.clear();
         if injected {
             Verdict::violated(
-                format!("role={role},appdata=epoch0_plaintext_accepted_before_authentication"),
+                if inject_v.is_object() {
+                    format!("role={role},inject={inject_desc},appdata=epoch0_plaintext_accepted_before_authentication")
+                } else {
+                    format!("role={role},appdata=epoch0_plaintext_accepted_before_authentication")
+                },
                 "a plaintext epoch-0 ApplicationData record injected during a handshake that never authenticated was handed to the application",
                 witness.clone(),
             )
@@ -2707,8 +3186,8 @@ async fn run_c02(sc: Value) -> Outcome {
             }
         }
     };
-    let nontrivial = reached && (tamper == "none" || tamper_applied > 0);
-    Outcome { verdict, nontrivial, obs: json!({"scenario": tag, "end": end.name(), "states": witness["states_seen"], "tamper_applied": tamper_applied}), counts, sets }
+    let nontrivial = reached && (tamper == "none" || tamper_applied > 0) && (!injecting || inject_done);
+    Outcome { verdict, nontrivial, obs: json!({"scenario": tag, "end": end.name(), "states": witness["states_seen"], "tamper_applied": tamper_applied, "injection_delivered": inject_done}), counts, sets }
 }
 
 // =====================================================================================
@@ -2756,6 +3235,70 @@ fn c02_scenarios(tier: Tier, rng: &mut Rng) -> Vec<Value> {
                       "bit": rng.below(4096), "inject": true, "cutoff_ms": cutoff.min(6000)}));
         v.push(json!({"prop":"C02","role":"server","expect":"random","peer":"genuine","tamper":"fin_omit",
                       "bit": rng.below(4096), "inject": true, "cutoff_ms": cutoff.min(6000)}));
+        // boundary values of the expectation itself: proper prefixes of the correct digest, the correct
+        // digest followed by extra bytes (never the digest of the presented certificate => not
+        // authentic), and other spellings of the very same digest (authentic).  Handed over verbatim
+        // and through rustrtc's own SDP fingerprint parser (what PeerConnection does).
+        for expect in ["prefix31", "prefix16", "prefix8", "prefix1", "empty", "extra1", "extra32", "lower", "nosep", "lower_nosep"] {
+            for via in ["direct", "sdp"] {
+                v.push(json!({"prop":"C02","role":"client","expect":expect,"via":via,"peer":"genuine","tamper":"none",
+                              "bit": rng.below(4096), "inject": false, "cutoff_ms": cutoff}));
+            }
+        }
+        // injection SEQUENCES of a party without keys at a handshake that never authenticates:
+        // pairs / triples over INJECT_ALPHABET containing at least one plaintext epoch-0
+        // ApplicationData record, separate datagrams and coalesced, at every datagram position of the
+        // handshake, both roles.  (client: expectation not met, fails at the Certificate = datagram 1;
+        // server: the client's Finished never arrives.)
+        let mut seqs: Vec<Vec<&str>> = vec![];
+        for a in INJECT_ALPHABET {
+            for b in INJECT_ALPHABET {
+                if *a == "p23" || *b == "p23" {
+                    seqs.push(vec![a, b]);
+                }
+            }
+        }
+        let mut triples: Vec<Vec<&str>> = vec![];
+        for a in INJECT_ALPHABET {
+            for b in INJECT_ALPHABET {
+                for c in INJECT_ALPHABET {
+                    if [*a, *b, *c].contains(&"p23") {
+                        triples.push(vec![a, b, c]);
+                    }
+                }
+            }
+        }
+        let places: Vec<(&str, &str, u64, u64)> = vec![
+            ("client", "none", 0, 1500), ("client", "none", 1, 1500), ("client", "none", 2, 1500),
+            ("server", "fin_omit", 0, 900), ("server", "fin_omit", 1, 900), ("server", "fin_omit", 2, 900), ("server", "fin_omit", 3, 900),
+        ];
+        let inj = |v: &mut Vec<Value>, rng: &mut Rng, seq: &Vec<&str>, coalesced: bool, place: &(&str, &str, u64, u64)| {
+            v.push(json!({"prop":"C02","role":place.0,"expect":"random","peer":"genuine","tamper":place.1,
+                          "bit": rng.below(4096), "inject": {"seq": seq, "pos": place.2, "coalesced": coalesced}, "cutoff_ms": place.3}));
+        };
+        if tier == Tier::Thorough {
+            for seq in seqs.iter().chain(triples.iter()) {
+                for coalesced in [false, true] {
+                    for place in &places {
+                        inj(&mut v, rng, seq, coalesced, place);
+                    }
+                }
+            }
+        } else {
+            for seq in &seqs {
+                for coalesced in [false, true] {
+                    for place in &places {
+                        inj(&mut v, rng, seq, coalesced, place);
+                    }
+                }
+            }
+            for _ in 0..42 {
+                let seq = rng.pick(&triples).clone();
+                let place = *rng.pick(&places);
+                let coalesced = rng.chance(1, 3);
+                inj(&mut v, rng, &seq, coalesced, &place);
+            }
+        }
         // active on-path completion: the genuine flight is relayed up to an insertion point, then the
         // on-path party supplies its own key-exchange material and finishes the handshake itself
         for shape in TAKEOVER_SHAPES {
@@ -2891,7 +3434,29 @@ fn c11_scenarios(tier: Tier, rng: &mut Rng, pair: &str, disc: &[(Dir, String, u3
             "seed": rng.next_u64() >> 16, "loss": rng.range(1, 30), "dup": rng.range(0, 10), "swap": rng.range(0, 15),
             "delay": rng.range(0, 10), "refrag": rng.range(0, 15), "heal_after": rng.range(4, 30)}}));
     }
+    if pair == "rr" {
+        // racing senders (an OS thread per side that calls send() the instant get_state() shows
+        // Connected) + ordinary state subscribers in a sample of the fault scenarios
+        let every = tier.pick(4, 2);
+        for (i, sc) in v.iter_mut().enumerate() {
+            if i % every == 1 {
+                sc["race"] = json!({"subs": *rng.pick(&[0u64, 4, 8, 16, 32])});
+            }
+        }
+    }
     v
+}
+
+/// dedicated racing-sender family: unfaulted rustrtc<->rustrtc handshakes, a racing sender and k
+/// ordinary state subscribers per side, repeated (the interesting interleavings are narrow)
+fn c11_race_family(tier: Tier) -> Vec<Value> {
+    let rounds = tier.pick(160u64, 2000u64);
+    (0..rounds)
+        .map(|i| {
+            let subs = [8u64, 16, 32, 4, 0][(i % 5) as usize];
+            json!({"prop":"C11","pair":"rr","plan":[],"race":{"subs": subs},"round": i})
+        })
+        .collect()
 }
 
 /// clean handshake: which datagram classes exist per direction (drives the enumeration)
@@ -2906,6 +3471,7 @@ async fn discover(pair: &str) -> Result<Vec<(Dir, String, u32)>, String> {
         client_expect: None,
         server_expect: None,
         force_renumber: false,
+        race: None,
     })
     .await?;
     let t0 = Instant::now();
@@ -2980,7 +3546,7 @@ pub fn run(args: &Args) -> i32 {
     let rule = if prop == "C02" {
         "the endpoint under test received the peer's flight and the scenario's tampering (if any) was really applied by the wire"
     } else {
-        "at least one fault rule of the plan fired on the wire (drop/dup/swap/delay/re-fragmentation of a handshake datagram)"
+        "at least one fault rule of the plan fired on the wire (drop/dup/swap/delay/re-fragmentation of a handshake datagram), or a racing sender's send() returned Ok on a side it had just observed Connected"
     };
     let mut report = Report::new(args, "fault_enumeration", rule);
     report.max_samples = 8;
@@ -3050,9 +3616,18 @@ pub fn run(args: &Args) -> i32 {
     if let Some(n) = args.opt("--limit").and_then(|s| s.parse::<usize>().ok()) {
         scenarios.truncate(n);
     }
-    let total = scenarios.len();
-    let conc = args.opt("--conc").and_then(|s| s.parse().ok()).unwrap_or(if prop == "C02" { 96 } else { 160 });
+    // C11 racing-sender family: its own phase at low concurrency, so that the racing threads really
+    // run in parallel with the handshake tasks instead of queueing behind hundreds of other rigs
+    let mut race_results: Vec<(Value, Outcome)> = vec![];
+    if prop == "C11" && !args.has_flag("--no-race-family") && args.opt("--pair").map(|p| p != "ref").unwrap_or(true) {
+        let fam = c11_race_family(args.tier);
+        report.note(format!("{} racing-sender rounds (unfaulted rr handshake, send() at the instant of Connected on both sides)", fam.len()));
+        race_results = rt.block_on(run_batch(prop, fam, 6));
+    }
+    let total = scenarios.len() + race_results.len();
+    let conc = args.opt("--conc").and_then(|s| s.parse().ok()).unwrap_or(160);
     let mut results = rt.block_on(run_batch(prop, scenarios, conc));
+    results.extend(race_results);
     // inconclusive scenarios (scheduler lag, watchdog) get two more attempts at low concurrency
     for _attempt in 0..2 {
         let redo: Vec<Value> = results
